@@ -25,6 +25,7 @@ type op struct {
 	N int    `json:"n,omitempty"`
 	B []byte `json:"b,omitempty"`
 	E bool   `json:"e,omitempty"` // EOM flag on an added packet
+	O bool   `json:"o,omitempty"` // bytes: the caller treats the result as its own memory (changes it, appends to it)
 }
 
 type rxCase struct {
@@ -161,7 +162,7 @@ func runRx(c rxCase) *vh.Failure {
 						return fail("C15/earlier-result-overwritten", "a slice returned by an earlier Bytes call read %x when it was returned and reads %x now", h[1], h[0])
 					}
 				}
-				if o.K == "bytes" && err == nil && len(got) > 0 {
+				if o.K == "bytes" && err == nil && len(got) > 0 && !o.O {
 					held = append(held, [2][]byte{got, append([]byte{}, got...)})
 					if len(held) > 4 {
 						held = held[1:]
@@ -184,6 +185,16 @@ func runRx(c rxCase) *vh.Failure {
 					}
 					flat = flat[n:]
 					consumed += n
+					if o.K == "bytes" && o.O {
+						// the result is the caller's: it may change it and append to it; the queue
+						// keeps returning the bytes that were enqueued (also after a restore)
+						for i := range got {
+							got[i] ^= 0xFF
+						}
+						got = append(got, 0xEE, 0xEE, 0xEE)
+						_ = got
+						vh.Label("rx:caller-modifies-result")
+					}
 				} else {
 					if !errors.Is(err, tds.ErrNotEnoughBytes) {
 						return fail("C15/short-read-not-reported", "%d bytes requested, only %d available, error = %v (want ErrNotEnoughBytes)", n, len(flat), err)
@@ -323,6 +334,12 @@ func genRx(rt *rapid.T) rxCase {
 			avail += sz
 		case "bytes", "string", "read":
 			o.N = rapid.IntRange(0, avail+3).Draw(rt, "n")
+			if k == "bytes" {
+				if rapid.Bool().Draw(rt, "short") {
+					o.N = rapid.IntRange(0, 6).Draw(rt, "n")
+				}
+				o.O = rapid.IntRange(0, 2).Draw(rt, "own") == 0
+			}
 			if o.N > avail {
 				avail = 0
 			} else {
